@@ -29,14 +29,16 @@ def unsetter(fn, field, props=('C09',)):
 
 GROUP = dict(
     name='builder',
-    theory=['base.rs'],
+    theory=['base.rs', 'split.rs'],
     uses='use core::cmp::Ordering;\nuse core::marker::PhantomData;',
     canary='    axiom_string_from(); broadcast use axiom_ascii_to_lower; broadcast use axiom_view_of_str;',
     units=[_c.PURL_FIELD, _c.PARSE_ERROR, _c.QUALIFIER_KEY, _c.QUALIFIERS, _c.PURL_PARTS,
            _c.unit_of('qual', 'T.MixedQualifierKey'), _c.unit_of('qual', 'theory.qual'),
            _c.unit_of('qual', 'spec.Qualifiers'),
            dict(id='theory.types', kind='raw', text=_c.theory_text('types.rs')),
-           dict(id='theory.cksum_abs', kind='raw', text=_c.theory_text('cksum_abs.rs')),
+           dict(id='theory.cksum', kind='raw', text=_c.theory_text('cksum.rs')),
+           _c.unit_of('cksum', 'T.Checksum'), _c.unit_of('cksum', 'spec.Checksum'),
+           _c.contract_only('cksum', 'U-cktext.checksum_to_text'),
            _c.unit_of('qual', 'T.KnownQualifierKey'),
            dict(id='T.GenericPurlBuilder', kind='struct', name='GenericPurlBuilder', file=F),
            dict(id='T.GenericPurl', kind='struct', name='GenericPurl', file='purl/src/lib.rs'),
@@ -105,23 +107,29 @@ impl Default for PurlParts {
             exists|t1: T, p1: PurlParts, fr: Result<(), T::Error>|
                 #[trigger] T::finish_rel(self.package_type, self.parts, t1, p1, fr) && build_post::<T>(t1, p1, fr, r),
             r is Ok ==> r->Ok_0.parts.qualifiers.wf() && r->Ok_0.parts.name@.len() > 0
-                && forall|i: int| 0 <= i < r->Ok_0.parts.qualifiers.qualifiers@.len() ==> (#[trigger] r->Ok_0.parts.qualifiers.qualifiers@[i]).1@.len() > 0
-                        || r->Ok_0.parts.qualifiers.qualifiers@[i].0.0@ == checksum_key(),''',
+                && forall|i: int| 0 <= i < r->Ok_0.parts.qualifiers.qualifiers@.len() ==> (#[trigger] r->Ok_0.parts.qualifiers.qualifiers@[i]).1@.len() > 0,''',
                 sig_rw=[('R0', r'<T as PurlShape>::Error', 'T::Error', '*')],
                 rw=[('R0', r'crate::PurlField::Name', 'PurlField::Name', '*'),
                     ('R5', r'self\.parts\.qualifiers\.retain\(\|_, v\| !v\.is_empty\(\)\);', 'x_retain_nonempty(&mut self.parts.qualifiers);', '*'),
                     ('R5', r'self\.parts\.qualifiers\.try_get_typed::<Checksum>\(\)', 'x_try_get_typed_checksum(&self.parts.qualifiers)', '*'),
-                    ('R2', r'SmallString::try_from\(checksum\)', 'x_checksum_to_text(checksum)', '*'),
+                    ('R2', r'SmallString::try_from\(checksum\)', 'checksum_to_text(checksum)', '*'),
                     # R8: `e?` written out as its definition where the converted error value matters to the contract
                     ('R8', r'(x_try_get_typed_checksum\(&self\.parts\.qualifiers\))\?',
                      r'(match \1 { Ok(v_) => v_, Err(e_) => return Err(From::from(e_)) })', '*'),
-                    ('R8', r'(x_checksum_to_text\(checksum\))\?',
+                    ('R8', r'(checksum_to_text\(checksum\))\?',
                      r'(match \1 { Ok(v_) => v_, Err(e_) => return Err(From::from(e_)) })', '*')],
                 hints=[(r'self\.package_type\.finish\(&mut self\.parts\)\?;', 'before',
                         '        let ghost t0 = self.package_type;\n        let ghost p0 = self.parts;'),
                        (r'if self\.parts\.name\.is_empty\(\) \{', 'before',
                         '        let ghost t1 = self.package_type;\n        let ghost p1 = self.parts;\n'
                         '        proof { lemma_nonempty_subset(p1.qualifiers.qualifiers@); lemma_nonempty_wf(p1.qualifiers.qualifiers@); lemma_checksum_key(); axiom_string_from(); }'),
+                       (r'if let Some\(checksum\) =', 'before', '''        proof {
+            let q2 = self.parts.qualifiers.qualifiers@;
+            if has_key(q2, checksum_key()) {
+                let tx = q2[pos_of(q2, checksum_key())].1@;
+                if ck_parse(tx) is Some { lemma_ck_parse_nonempty(tx); }
+            }
+        }'''),
                        ]),
     ],
 )
